@@ -208,16 +208,6 @@ Definition aliases_agree (strict : bool) (a1 a2 : list alias_entry) : bool :=
 (** what type_system_to_ast followed by ast_to_type_system (the Schema the declaration printers work from on the JSON
     route) must preserve: every type definition up to positions, default-value text and deprecation (the AST the
     conversion produces carries no directives), the description, and the declared root operation types *)
-Definition strip_input (i : sinput) : sinput := mkSInput (si_name i) (si_desc i) (si_type i) (si_default i) None.
-Definition strip_field (f : sfield) : sfield := mkSField (sf_name f) (sf_desc f) (sf_type f) (map strip_input (sf_args f)) None.
-Definition strip_typedef (d : stypedef) : stypedef :=
-  match d with
-  | SDObject n ds fs is_ => SDObject n ds (map strip_field fs) is_
-  | SDInterface n ds fs is_ => SDInterface n ds (map strip_field fs) is_
-  | SDEnum n ds ms => SDEnum n ds (map (fun e => mkSMember (sm_name e) (sm_desc e) None) ms)
-  | SDInput n ds fs => SDInput n ds (map strip_input fs)
-  | d => d
-  end.
 Definition back_equiv_b (a b : schema) : bool :=
   option_eqb str_eqb (option_map nval (sc_desc a)) (option_map nval (sc_desc b))
   && forallb (fun op => option_eqb str_eqb (option_map nval (declared_root (nval (sc_roots a)) op))
